@@ -10,16 +10,19 @@ for d in sorted(glob.glob('seeded/C*')):
     if not os.path.exists(mp): continue
     m = json.load(open(mp)); first = m.get('confirmed_by_coordinator', {})
     now = None; how = ''
+    prev = m.get('rechecked', {})
     t = 'work/seedmatrix/%s.txt' % s
     if os.path.exists(t):
         line = open(t).read(); mm = re.search(r'exit=(\S+)', line); now = (mm.group(1) == '1')
         how = 'concrete failing input' if 'no-failing-input-found' not in line else 'broken obligation / correspondence (no failing input isolated)'
+    elif m.get('rechecked', {}).get('how') is not None and 'detected' in m.get('rechecked', {}):
+        # no fresh matrix run for this seed: keep the verdict of the last one (recorded in meta.json)
+        now = m['rechecked']['detected']; how = m['rechecked']['how']
     else:
         cl = open(d + '/check.log').read() if os.path.exists(d + '/check.log') else ''
         now = first.get('detected'); v = [l for l in cl.split('\n') if l.startswith('VIOLATION')]
         how = 'concrete failing input' if v and 'no-failing-input-found' not in v[0] else ('broken obligation / correspondence (no failing input isolated)' if v else '')
-    prev = m.get('rechecked', {})
-    m['rechecked'] = {'repo_head': head, 'detected': bool(now), 'how': how, 'first_run_detected': prev.get('first_run_detected', first.get('detected'))}
+    m['rechecked'] = {'repo_head': head if os.path.exists(t) or not prev else prev.get('repo_head', head), 'detected': bool(now), 'how': how, 'first_run_detected': prev.get('first_run_detected', first.get('detected'))}
     json.dump(m, open(mp, 'w'), indent=1)
     fc = m.get('files_changed'); site = ', '.join(fc) if isinstance(fc, list) else str(fc)
     needs = (m.get('needs_to_manifest') or '').replace('\n', ' ').replace('|', '/')
